@@ -27,6 +27,7 @@ def run(prog, chk):
         "options optimizeCFF/cffVersion/subroutinizer/roundTolerance reach their consumer by name (R12.4)",
         "in the CFF outline compiler nothing that draws or builds is conditional on optimizeCFF / cffVersion / subroutinizer; optimizeCFF is only consumed as getCharString(optimize=...) (R12.5)",
     ]
+    chk.decided += ["every glyph has its own charstring object, compiled from its own outline: a subroutiniser that rewrites programs in place (compreffor) never meets one object under two names (R12.10 = R01.12)"]
     chk.not_decided += ["equality of the drawing operations across combinations (fontTools specialiser, cffsubr, compreffor)"]
     ix = prog.ix
     pp = ix.get_class(PP)
@@ -244,6 +245,8 @@ def run(prog, chk):
     chk.guard(r127, prog, chk)
     chk.guard(r128, prog, chk)
     chk.guard(r129, prog, chk)
+    from .c01 import r0112
+    chk.guard(r0112, prog, chk, "R12.10")
 
 
 def masters_force_none(prog, chk, rule):
@@ -453,6 +456,9 @@ def r129(prog, chk):
 
 
 MUTANTS = [
+    M("identical programs share one charstring object (seeded C12k)", "ufo2ft/outlineCompiler.py", "OutlineOTFCompiler.compileGlyphs",
+      "compiledGlyphs[glyphName] = cs", "compiledGlyphs[glyphName] = seen.setdefault(tuple(cs.program), cs)", rule="R12.10",
+      also=(("ufo2ft/outlineCompiler.py", "OutlineOTFCompiler.compileGlyphs", "compiledGlyphs = {}", "compiledGlyphs = {}\nseen = {}"),)),
     M("rounding tolerance raised when the specialiser is on (seeded C12i)", "ufo2ft/outlineCompiler.py", "OutlineOTFCompiler.__init__",
       "self.optimizeCFF = optimizeCFF", "self.optimizeCFF = optimizeCFF\nif optimizeCFF:\n    self.roundTolerance = max(self.roundTolerance, 0.005)", rule="R12.5"),
     M("optimisation level kept on the compiler under a second name too", "ufo2ft/outlineCompiler.py", "OutlineOTFCompiler.__init__",
